@@ -180,7 +180,7 @@ def run_case(case):
               backend=case['backend'], vectorize=case['vectorize'], verbose=False, float_precision='float64',
               clear=True, inputs={k: v.copy() for k, v in inputs.items()})
     if adaptive:
-        kw.update(rtol=1e-8, atol=1e-10)
+        kw.update(rtol=1e-11, atol=1e-13)   # the inputs have kinks: RK45's local error estimate is blind to some of them
     if case['backend'] == 'fortran':
         kw['file_name'] = f"c08_{abs(hash(str(sorted(case.items())))) % 10**9}"
     try:
